@@ -163,8 +163,9 @@ func judgeCrash(cw crashW) kit.Result {
 	// had already persisted a position for it, and only after the first contact
 	contact := updsim.FirstContact(sc.World, log, sc.Hist)
 	owed := func(e updsim.Entry) bool {
-		if e.Count == 0 {
-			// zero-count updates occupy no position: a saved pts neither covers nor exposes them
+		if e.Count == 0 || e.Affected() {
+			// zero-count updates occupy no position: a saved pts neither covers nor exposes them;
+			// an own operation (affected-pts result) has nothing that must reach the handler
 			return false
 		}
 		if e.Chan == 0 || !sc.World.IsUntracked(e.Chan) {
@@ -339,6 +340,30 @@ func plans(thorough bool) []worldPlan {
 	add([]string{"cmsg", "cedit"}, depth, nil)
 	add([]string{"msg", "del", "enc", "cmsg", "cdel"}, depth, nil)
 	add([]string{"cmsg", "cmsg@2", "cdel@2"}, depth, nil)
+	// own operations learned from messages.affected* results (Manager.HandleAffected)
+	for _, log := range [][]string{{"aff", "msg"}, {"msg", "aff"}, {"msg", "aff", "msg"}, {"del", "aff", "aff"}, {"cmsg", "caff"}, {"caff", "cmsg"}, {"cmsg", "caff", "cmsg"}} {
+		for _, sl := range []int{0, 1} {
+			sl := sl
+			add(log, depth, func(c *updsim.WorldCfg) { c.Server.Slice, c.Server.ChanSlice = sl, sl })
+		}
+	}
+	// short forms of new messages; messages from a sender whose access hash is unknown / learned
+	for _, log := range [][]string{{"msg"}, {"msg", "msg"}, {"msg", "del", "msg"}} {
+		for _, env := range []string{"shortchat", "shortuser", "shortsent"} {
+			env := env
+			add(log, depth, func(c *updsim.WorldCfg) { c.Envelope = env })
+		}
+		for _, snd := range []string{"unknown", "learned"} {
+			snd := snd
+			add(log, depth, func(c *updsim.WorldCfg) { c.Server.Sender = snd })
+		}
+	}
+	// channels stored at the start whose access hash arrives with their first pushed envelope
+	for _, ch := range seqs([]string{"cmsg@2", "cdel@2"}, 1, chanLen) {
+		add(ch, depth, func(c *updsim.WorldCfg) { c.LateHash = []int{2} })
+	}
+	add([]string{"cmsg", "cmsg@2", "cdel@2"}, depth, func(c *updsim.WorldCfg) { c.LateHash = []int{2}; c.Server.ChanSlice = 1 })
+	add([]string{"cmsg@2", "cdel@2", "cmsg@2"}, depth-1, func(c *updsim.WorldCfg) { c.LateHash = []int{2}; c.Containers = 2 })
 	// the server answers "too long"
 	for _, log := range seqs([]string{"msg", "del"}, 2, commonLen) {
 		add(log, depth, func(c *updsim.WorldCfg) { c.Server.TooLong = 2 })
@@ -361,7 +386,7 @@ func main() {
 			"Family persisted (a): every scenario's merged trace of StateStorage writes, Handler.Handle calls and too-long callbacks; oracle on EVERY prefix: no log entry whose end position is <= the saved pts/qts/channel pts of its sequence is still undelivered unless the too-long callback of that sequence was called earlier. " +
 			"Family crash-restart (b): for every scenario that ends with a recovery, a crash after each k = 0..len(trace) trace elements (every call boundary of the two interfaces): storage snapshot at k -> new engine through the real loadState/loadChannels -> start-up difference + channel subscriptions + all timers to a fixpoint against the complete log; oracle: every log entry was handed to the handler before the crash or in the second run, or its sequence was reported too long. " +
 			"Further worlds push envelopes that carry 2-3 log entries in every order (tracked channels, newly seen channels, common sequences) and contain zero-count updates (cread/cweb/web); the first contact of a newly seen channel is the earliest range start in the first envelope that carries it. Zero-count entries occupy no position, so a saved pts neither covers nor exposes them: they take part in the histories but are not themselves demanded by (a)/(b). " +
-			"A case = scenario (+ crash point); distinct = distinct cases; the root scenario of a world is trivial.")
+			"A case = scenario (+ crash point); distinct = distinct cases; the root scenario of a world is trivial. Audit additions: (a) log kinds aff / caff = own operations whose position the client learns from a messages.affected* result: pushing such an entry calls the affectedQueue arm (Manager.HandleAffected -> internalState.handleAffected / channelState.handleAffected) in any order with the pushes around it; nothing of it is owed to the handler, a position it covers counts as settled once the result was handed over, and a tracked position may move to its end; a difference from an earlier position returns it as updateReadHistoryOutbox / updateDeleteChannelMessages in other_updates. (b) envelope forms shortchat / shortuser / shortsent: a new message pushed as updateShortChatMessage (own message, peers known: conversion path), updateShortMessage (sender access hash unknown: envelope dropped, immediate getDifference) or updateShortSentMessage (delivered as updateNewMessage with messageEmpty). (c) Server.Sender unknown / learned: msg and edit carry from_id of a user whose access hash is unknown (every pushed envelope with such a message is dropped and answered by getDifference) or is learned from the users vector of the first difference. (d) LateHash worlds: a channel that is in the storage at position 0 but whose access hash is unknown at start-up (Manager.loadChannels skips it); its envelopes carry the full channel in chats, so the first push makes handleChannel create the worker from the STORED position (GetChannelPts found branch); every entry after the stored position is owed once a push was seen. (e) \"covered by a fetched difference\" is kept as position ranges: an answer to a request from a that sets state b covers (a, b], not the positions up to a. After a restart the access hash of a LateHash channel is known, so it is tracked from its saved position.")
 		c.Assume("the StateStorage used is a plain map implementation of the interface contract (SetState does not touch channel pts); crash = the process stops between two calls, the storage keeps exactly the completed writes")
 		c.Assume("engine driven on one thread through in-package step functions (see C02); restart results are memoised per (world, storage snapshot), which is sound because the second run is a deterministic function of those")
 		ps := plans(c.Thorough())
